@@ -13,6 +13,9 @@ def step (r : Reg) : List String → Reg × String
   | ["local", v, off, len] => match unhex v, off.toInt?, len.toInt? with
       | some v, some o, some l => (r, resStr (localRead v ⟨o, l⟩))
       | _, _, _ => (r, "bad-op")
+  | ["git", v, off, len] => match unhex v, off.toInt?, len.toInt? with
+      | some v, some o, some l => (r, resStr (gitRead v ⟨o, l⟩))
+      | _, _, _ => (r, "bad-op")
   | ["pos", off, len, size] => match off.toInt?, len.toInt?, size.toInt? with
       | some o, some l, some s => let p := (BlobRange.mk o l).positiveRange s; (r, s!"{p.offset} {p.length}")
       | _, _, _ => (r, "bad-op")
